@@ -77,6 +77,77 @@ pub struct Case {
     /// real directory, as the kernel resolves them, not out of the link
     #[serde(default)]
     pub link_abs: bool,
+    /// this included file is a named pipe; a second party writes its text every time somebody opens it for
+    /// reading (a reader that trusts the size the file system reports reads nothing)
+    #[serde(default)]
+    pub fifo: Option<usize>,
+}
+
+/// the other end of the named pipe: waits until a reader has the pipe open, writes the text, closes; again for the
+/// next reader; ends when dropped
+struct FifoFeeder {
+    stop: std::sync::Arc<std::sync::atomic::AtomicBool>,
+    handle: Option<std::thread::JoinHandle<()>>,
+}
+
+impl FifoFeeder {
+    fn start(path: PathBuf, text: String) -> FifoFeeder {
+        use std::os::unix::fs::OpenOptionsExt;
+        let stop = std::sync::Arc::new(std::sync::atomic::AtomicBool::new(false));
+        let s2 = stop.clone();
+        let handle = std::thread::spawn(move || {
+            use std::io::Write;
+            // the reader's close is awaited through inotify (IN_CLOSE_NOWRITE): the write end is not opened again while
+            // the previous reader still holds the pipe, or it would read the text twice
+            let cpath = std::ffi::CString::new(path.to_string_lossy().as_bytes()).unwrap();
+            let ino = unsafe { libc::inotify_init1(libc::IN_NONBLOCK) };
+            if ino >= 0 {
+                unsafe {
+                    libc::inotify_add_watch(ino, cpath.as_ptr(), libc::IN_CLOSE_NOWRITE);
+                }
+            }
+            while !s2.load(std::sync::atomic::Ordering::SeqCst) {
+                // opening the write end without blocking succeeds only while a reader has the pipe open
+                match std::fs::OpenOptions::new().write(true).custom_flags(libc::O_NONBLOCK).open(&path) {
+                    Ok(mut f) => {
+                        // back to blocking writes: the text may exceed the pipe buffer
+                        unsafe {
+                            use std::os::unix::io::AsRawFd;
+                            let fl = libc::fcntl(f.as_raw_fd(), libc::F_GETFL);
+                            libc::fcntl(f.as_raw_fd(), libc::F_SETFL, fl & !libc::O_NONBLOCK);
+                        }
+                        let _ = f.write_all(text.as_bytes());
+                        drop(f);
+                        // wait for that reader to close
+                        let mut buf = [0u8; 4096];
+                        while ino >= 0 && !s2.load(std::sync::atomic::Ordering::SeqCst) {
+                            let n = unsafe { libc::read(ino, buf.as_mut_ptr() as *mut libc::c_void, buf.len()) };
+                            if n > 0 {
+                                break;
+                            }
+                            std::thread::sleep(std::time::Duration::from_micros(50));
+                        }
+                    }
+                    Err(_) => std::thread::sleep(std::time::Duration::from_micros(100)),
+                }
+            }
+            if ino >= 0 {
+                unsafe {
+                    libc::close(ino);
+                }
+            }
+        });
+        FifoFeeder { stop, handle: Some(handle) }
+    }
+}
+
+impl Drop for FifoFeeder {
+    fn drop(&mut self) {
+        self.stop.store(true, std::sync::atomic::Ordering::SeqCst);
+        if let Some(h) = self.handle.take() {
+            let _ = h.join();
+        }
+    }
 }
 
 const ROOT: &str = "run";
@@ -316,11 +387,24 @@ fn run_case(case: &Case, env: &WorkerEnv) -> Verdict {
                 let _ = std::fs::write(p, [0x65u8, 0x6d, 0x69, 0x74, 0x20, 0xff, 0xfe, 0x0a]);
                 sim::with_core(|c| c.fire("F8", &format!("{} is not UTF-8", f.path)));
             }
+            _ if case.fifo == Some(i) && i > 0 && case.fault.is_none() => {
+                let c = std::ffi::CString::new(f.path.as_bytes()).unwrap();
+                unsafe {
+                    libc::mkfifo(c.as_ptr(), 0o644);
+                }
+            }
             _ => {
                 let _ = std::fs::write(p, file_text(case, i, &base));
             }
         }
     }
+    let _feeder = match case.fifo {
+        Some(k) if k > 0 && k < case.files.len() && case.fault.is_none() => {
+            sim::with_core(|c| c.probe("included-file-is-a-named-pipe"));
+            Some(FifoFeeder::start(base.join(&case.files[k].path), file_text(case, k, &base)))
+        }
+        _ => None,
+    };
     if case.link_abs && case.fault.is_none() && Path::new("run/a/b").is_dir() {
         if std::os::unix::fs::symlink("a/b", "run/lnk").is_ok() {
             sim::with_core(|c| c.probe("include-through-a-directory-link"));
@@ -619,7 +703,9 @@ fn gen_case(rng: &mut Rng) -> Case {
         files[f].lines.insert(pos, Line::Bulk { n: 1000 + rng.usize(1500), pad: rng.usize(5) });
     }
     let root_absolute = rng.chance(1, 4);
-    Case { entropy: rng.next_u64(), files, root_absolute, fault, root_bare: !root_absolute && rng.chance(1, 5), edit_nested: rng.chance(1, 3), link_abs: rng.chance(1, 3) }
+    let edit_nested = rng.chance(1, 3);
+    let fifo = if n_files > 1 && fault.is_none() && !edit_nested && rng.chance(1, 25) { Some(1 + rng.usize(n_files - 1)) } else { None };
+    Case { entropy: rng.next_u64(), files, root_absolute, fault, root_bare: !root_absolute && rng.chance(1, 5), edit_nested, link_abs: rng.chance(1, 3), fifo }
 }
 
 /// is file k reachable from the root through include directives?
